@@ -9,6 +9,7 @@ CONSTANTS
   Orders = {"fwd", "rev", "rot"}
   PageSize = 2
   MinSpans = 1
+  MinEntries = 0
   ResolveInTrace = TRUE
 INVARIANTS TypeOK BuildIsWellFormed MalformationBreaksOneTrace TreeCoversTrace TraceListOnce WindowExcludes PagesPartition DepGraphExact REDEntries IngestPlanInvariance
 CHECK_DEADLOCK FALSE
